@@ -225,7 +225,7 @@ def h_forest(ctx, nsw, par, toggle, order='asc', reboot=False):
   def directed(idx):
     a, pa, b, pb = cables[idx // 2]
     return D.Link(dpids[a], pa, dpids[b], pb) if idx % 2 == 0 else D.Link(dpids[b], pb, dpids[a], pa)
-  def fill(m):
+  def fill(m, after_first=None):
     """move the adjacency to link set m the way Discovery does: one link at a time, each change announced by a LinkEvent
     that the spanning-tree component handles (its real entry point)"""
     idxs = list(range(ndir))
@@ -239,6 +239,9 @@ def h_forest(ctx, nsw, par, toggle, order='asc', reboot=False):
         disc.raiseEventNoErrors(D.LinkEvent, True, L)         # as Discovery._handle_openflow_PacketIn does for a new link
       else:
         disc._delete_links([L])                                # the real withdrawal path (link timeout / ConnectionDown)
+      if after_first is not None:
+        after_first(); after_first = None
+    if after_first is not None: after_first()
     cur[0] = m
   def state():
     flood = {}
@@ -288,12 +291,27 @@ def h_forest(ctx, nsw, par, toggle, order='asc', reboot=False):
       if r in (a, b): lost |= (1 << idx)
     cur[0] = mask & ~lost
     check('while switch %d is disconnected: ' % r, cur[0], absent=r)
+    target = mask
+    if reboot == 'flap':
+      # only the control channel flapped: the switch keeps its port configuration (NO_FLOOD bits stay as they were), and meanwhile one link
+      # between the *other* switches changed - the tree the component wants afterwards may need a port that is still blocked on the returning switch
+      others = [idx for idx in range(ndir) if r not in (cables[idx // 2][0], cables[idx // 2][2])]
+      if others:
+        t = others[int(ctx.int('toggle_while_away', 0, len(others) - 1))]
+        fill(cur[0] ^ (1 << t))
+        target = mask ^ (1 << t)
     c = Con(dpids[r], [(no, p.hw_addr) for no, p in old.ports.items()]); c.connect_time = clock.now
+    if reboot == 'flap': c.sent = [m_ for m_ in old.sent if isinstance(m_, of.ofp_port_mod)]        # the datapath's port config survives
     nexus._connections[dpids[r]] = c; cons[r] = c
     class Up: dpid = dpids[r]; connection = c
-    ST._handle_ConnectionUp(Up)
-    fill(mask)
-    check('after switch %d rebooted and its links were rediscovered: ' % r, mask)
+    # Discovery probes a connecting switch at once: the first rediscovered link may be announced before the spanning-tree component has
+    # handled the ConnectionUp itself (listener order) - both orders are explored
+    if bool(ctx.bool('link_before_connection_up')):
+      fill(target, after_first=lambda: ST._handle_ConnectionUp(Up))
+    else:
+      ST._handle_ConnectionUp(Up)
+      fill(target)
+    check('after switch %d %s and its links were rediscovered: ' % (r, 'reconnected (port config retained)' if reboot == 'flap' else 'rebooted'), target)
     ctx.witness('rebooted')
   if toggle:
     t = int(ctx.int('toggle', 0, ndir - 1))
@@ -309,7 +327,8 @@ def obligations(tier):
   forest = [dict(nsw=2, par=1, toggle=True), dict(nsw=2, par=2, toggle=True), dict(nsw=2, par=2, toggle=True, order='desc'), dict(nsw=3, par=1, toggle=False),
             dict(nsw=3, par=1, toggle=True), dict(nsw=3, par=1, toggle=True, order='desc')]
   forest += [dict(nsw=3, par=2, toggle=False), dict(nsw=4, par=1, toggle=False)]
-  forest += [dict(nsw=3, par=1, toggle=False, reboot=True), dict(nsw=3, par=1, toggle=False, reboot=True, order='desc'), dict(nsw=2, par=2, toggle=False, reboot=True)]
+  forest += [dict(nsw=3, par=1, toggle=False, reboot=True), dict(nsw=3, par=1, toggle=False, reboot=True, order='desc'), dict(nsw=2, par=2, toggle=False, reboot=True),
+             dict(nsw=3, par=1, toggle=False, reboot='flap'), dict(nsw=3, par=1, toggle=False, reboot='flap', order='desc')]
   if thorough: forest += [dict(nsw=4, par=1, toggle=True), dict(nsw=3, par=2, toggle=True)]
   BOUNDS[tier] = dict(probe="dpid: every hex-digit length 1..16 x all values; ports 1..0xff00; receiving (dpid, port) symbolic",
                       adjacency="0..2 prior probes among 5 directed links over 3 switches with symbolic dpids and time gaps; then probe / expiry at a symbolic instant / "
